@@ -1,1 +1,368 @@
-From Coq Require Import ZArith List.
+(* Property C14 — descriptors; declared lengths always match emitted bytes (theorems only; proofs in Proofs/DescProofs.v).
+   Model: Model/Desc.v (hand-written from descriptor.go, run against the implementation on every check);
+   calcDescriptor<X>Length: Gen/Preds.v (re-translated from descriptor.go on every run);
+   Spec: Spec/DescSpec.v (body sizes from the standards as plain integers, the TLV split as a relation on bytes). *)
+From Coq Require Import ZArith List Lia.
+Require Import Base.Bits Base.Iter Base.Wr Gen.Consts Gen.Types Gen.Preds Model.Desc Spec.DescSpec Proofs.DescProofs.
+Import ListNotations.
+Open Scope Z_scope.
+
+(* (a) writeDescriptorsWithLength: the 12-bit loop length is the number of bytes that follow it and every
+   length byte is the number of body bytes behind it — for ARBITRARY Descriptor_Length fields (the theorem does
+   not mention them).  Guard: no body exceeds 255 bytes (no uint8 wrap in calcDescriptorLength) and the loop
+   fits its 12-bit length.  items_bytes_ok: byte strings hold bytes (the invariant of Go's []byte).
+   loop_bytes ds bodies = tag_1, length_1, body_1, tag_2, ... with length_k = calc_descriptor_length d_k. *)
+Theorem C14_len : forall ds out,
+  enc_descriptors_with_length ds = Ok out -> items_bytes_ok out ->
+  Forall (fun d => desc_size d < 256) ds -> loop_size ds < 4096 ->
+  let bytes := bytes_of_items out in
+  exists hdr bodies,
+    bytes = hdr ++ loop_bytes ds bodies /\ zlen hdr = 2 /\
+    Forall2 (fun d b => zlen b = calc_descriptor_length d /\ zlen b = desc_size d) ds bodies /\
+    bitsf bytes 4 12 = zlen bytes - 2 /\
+    zlen bytes = 2 + loop_size ds.
+Proof. exact descriptors_with_length_exact. Qed.
+Print Assumptions C14_len.
+
+(* the guard is satisfiable, with struct Length fields that are wrong (99), left 0, and a list-valued body *)
+Definition ex_ds : list Descriptor :=
+  [ set_StreamIdentifier (desc_hdr 82 99) {| DescriptorStreamIdentifier_ComponentTag := 7 |};
+    set_Unknown (desc_hdr 3 0) {| DescriptorUnknown_Content := [1; 2; 3]; DescriptorUnknown_Tag := 3 |};
+    set_Content (desc_hdr 84 200) {| DescriptorContent_Items :=
+      [ {| DescriptorContentItem_ContentNibbleLevel1 := 1; DescriptorContentItem_ContentNibbleLevel2 := 2; DescriptorContentItem_UserByte := 3 |};
+        {| DescriptorContentItem_ContentNibbleLevel1 := 15; DescriptorContentItem_ContentNibbleLevel2 := 0; DescriptorContentItem_UserByte := 255 |} ] |} ].
+Example C14_len_example : exists out,
+  enc_descriptors_with_length ex_ds = Ok out /\ items_bytes_ok out /\
+  Forall (fun d => desc_size d < 256) ex_ds /\ loop_size ex_ds < 4096 /\
+  bytes_of_items out = [240; 14; 82; 1; 7; 3; 3; 1; 2; 3; 84; 4; 18; 3; 240; 255].
+Proof.
+  eexists. split; [vm_compute; reflexivity|]. split; [repeat constructor; cbv; intuition discriminate|].
+  split; [repeat constructor|]. split; reflexivity.
+Qed.
+
+(* what happens in general, including uint8 wrap: the length byte is the body size modulo 256; the body is
+   written in full unless that residue is 0, in which case no body is written at all *)
+Theorem C14_len_any : forall d its, enc_descriptor d = Ok its -> items_bytes_ok its ->
+  exists body,
+    bytes_of_items its = [Descriptor_Tag d mod 256; calc_descriptor_length d mod 256] ++ body /\
+    calc_descriptor_length d = desc_size d mod 256 /\
+    zlen body = (if desc_size d mod 256 =? 0 then 0 else desc_size d).
+Proof. exact descriptor_any_len. Qed.
+Print Assumptions C14_len_any.
+
+(* a 256-byte body announces 0 and writes nothing; a 300-byte body announces 44 and writes 300 bytes *)
+Example C14_wrap_256 :
+  res_map bytes_of_items (enc_descriptor (set_Unknown (desc_hdr 3 0) {| DescriptorUnknown_Content := repeat 170 256; DescriptorUnknown_Tag := 3 |}))
+  = Ok [3; 0].
+Proof. vm_compute. reflexivity. Qed.
+Example C14_wrap_300 :
+  res_map (fun its => (firstn 2 (bytes_of_items its), zlen (bytes_of_items its)))
+    (enc_descriptor (set_Unknown (desc_hdr 3 0) {| DescriptorUnknown_Content := repeat 170 300; DescriptorUnknown_Tag := 3 |}))
+  = Ok ([3; 44], 302).
+Proof. vm_compute. reflexivity. Qed.
+
+(* (b) parseDescriptors never shifts what follows.  First with the body parser abstracted: ANY function that
+   returns Ok/Err/Panic and leaves the byte slice of the iterator alone (body_pres).  On success the result is
+   tlv_parse: the loop is split at tag/length boundaries only — entry k starts where entry k-1 started plus 2
+   plus its declared length — and descriptor k is what the body parser returns when it is run on the untouched
+   buffer at entry k's own body with entry k's own declared end, independently of what the earlier bodies
+   consumed; the iterator is left at the end of the last entry. *)
+Theorem C14_tlv_any_body : forall body bs pos ds i', body_pres body ->
+  parse_descriptors_with body (mk_iter bs pos) = Ok (ds, i') ->
+  0 <= pos /\ pos + 2 <= zlen bs /\ ibs i' = bs /\
+  tlv_parse desc_hdr body bs (pos + 2 + loop_length_at bs pos) (pos + 2) ds (ioff i').
+Proof. exact parse_descriptors_tlv. Qed.
+Print Assumptions C14_tlv_any_body.
+
+(* instantiated with the 23 typed parsers, unknown and user-defined tags: the tags and lengths returned are
+   exactly the TLV entries of the loop (tlv_chain is a function of the bytes alone: tlv_chain_det), and the
+   iterator ends at the first entry boundary at or after the declared end of the loop *)
+Theorem C14_tlv : forall bs pos ds i', bytes_ok bs ->
+  parse_descriptors (mk_iter bs pos) = Ok (ds, i') ->
+  let endp := pos + 2 + loop_length_at bs pos in
+  ibs i' = bs /\
+  tlv_parse desc_hdr parse_descriptor_body bs endp (pos + 2) ds (ioff i') /\
+  exists es, tlv_chain bs endp (pos + 2) es (ioff i') /\
+             map (fun d => (Descriptor_Tag d, Descriptor_Length d)) ds = map (fun e => (snd (fst e), snd e)) es /\
+             endp <= ioff i'.
+Proof. exact parse_descriptors_framing. Qed.
+Print Assumptions C14_tlv.
+
+Theorem C14_tlv_entries_unique : forall bs endp pos es fin, tlv_chain bs endp pos es fin ->
+  forall es' fin', tlv_chain bs endp pos es' fin' -> es' = es /\ fin' = fin.
+Proof. exact tlv_chain_det. Qed.
+Print Assumptions C14_tlv_entries_unique.
+
+(* exactly 2 + loop length bytes are consumed iff the last entry ends at the declared end of the loop *)
+Theorem C14_tlv_consumed : forall bs endp pos es fin, tlv_chain bs endp pos es fin ->
+  (es = [] /\ fin = pos) \/ (es <> [] /\ exists p t l, last es (0, 0, 0) = (p, t, l) /\ fin = p + 2 + l).
+Proof. exact tlv_chain_exact. Qed.
+Print Assumptions C14_tlv_consumed.
+
+(* an AVC video descriptor (4 body bytes) declared with length 2: its parser reads into the next entry, yet
+   the stream identifier that follows is decoded from its own boundary *)
+Example C14_tlv_example :
+  match parse_descriptors (new_iter [240; 7; 40; 2; 1; 2; 82; 1; 9]) with
+  | Ok ([a; s], i) => (Descriptor_Tag a, Descriptor_Length a, Descriptor_StreamIdentifier s, ioff i)
+                      = (40, 2, Some {| DescriptorStreamIdentifier_ComponentTag := 9 |}, 9)
+  | _ => False
+  end.
+Proof. vm_compute. reflexivity. Qed.
+
+(* an entry that overruns the declared loop end (loop length 2, entry of 2 + 5 bytes): the parser follows the
+   entry's own length, the iterator ends at 9, beyond 2 + 2 *)
+Example C14_tlv_overrun_example :
+  match parse_descriptors (new_iter [240; 2; 82; 5; 1; 2; 3; 4; 5; 77]) with
+  | Ok ([s], i) => (Descriptor_Length s, ioff i) = (5, 9)
+  | _ => False
+  end.
+Proof. vm_compute. reflexivity. Qed.
+
+(* (c) round trips, one descriptor in a loop with its 12-bit length: parsing what writeDescriptorsWithLength emits
+   for d (whose Descriptor_Length and foreign bodies are arbitrary) yields the body of d under the header (tag,
+   size), and the iterator stops behind the loop.  Domains: numeric fields within their width (byte_range = 0..255),
+   bodies of 1..255 bytes.  (The byte strings written are compared with the independent Go reference encoder
+   by the implementation-side oracle on every run.) *)
+Theorem C14_rt_stream_identifier : forall d v out rest,
+  Descriptor_Tag d = 82 -> Descriptor_StreamIdentifier d = Some v ->
+  byte_range (DescriptorStreamIdentifier_ComponentTag v) ->
+  enc_descriptors_with_length [d] = Ok out -> items_bytes_ok out ->
+  parse_descriptors (new_iter (bytes_of_items out ++ rest)) =
+    Ok ([set_StreamIdentifier (desc_hdr 82 1) v], mk_iter (bytes_of_items out ++ rest) 5).
+Proof. exact rt_stream_identifier. Qed.
+Print Assumptions C14_rt_stream_identifier.
+
+Theorem C14_rt_data_stream_alignment : forall d v out rest,
+  Descriptor_Tag d = 6 -> Descriptor_DataStreamAlignment d = Some v ->
+  byte_range (DescriptorDataStreamAlignment_Type v) ->
+  enc_descriptors_with_length [d] = Ok out -> items_bytes_ok out ->
+  parse_descriptors (new_iter (bytes_of_items out ++ rest)) =
+    Ok ([set_DataStreamAlignment (desc_hdr 6 1) v], mk_iter (bytes_of_items out ++ rest) 5).
+Proof. exact rt_data_stream_alignment. Qed.
+Print Assumptions C14_rt_data_stream_alignment.
+
+Theorem C14_rt_user_defined : forall d out rest,
+  128 <= Descriptor_Tag d <= 254 -> 0 < zlen (Descriptor_UserDefined d) < 256 ->
+  enc_descriptors_with_length [d] = Ok out -> items_bytes_ok out ->
+  parse_descriptors (new_iter (bytes_of_items out ++ rest)) =
+    Ok ([set_UserDefined (desc_hdr (Descriptor_Tag d) (zlen (Descriptor_UserDefined d))) (Descriptor_UserDefined d)],
+        mk_iter (bytes_of_items out ++ rest) (4 + zlen (Descriptor_UserDefined d))).
+Proof. exact rt_user_defined. Qed.
+Print Assumptions C14_rt_user_defined.
+
+Theorem C14_rt_unknown : forall d v out rest,
+  0 <= Descriptor_Tag d < 256 -> is_user_defined (Descriptor_Tag d) = false -> ~ In (Descriptor_Tag d) typed_tags ->
+  Descriptor_Unknown d = Some v -> DescriptorUnknown_Tag v = Descriptor_Tag d -> 0 < zlen (DescriptorUnknown_Content v) < 256 ->
+  enc_descriptors_with_length [d] = Ok out -> items_bytes_ok out ->
+  parse_descriptors (new_iter (bytes_of_items out ++ rest)) =
+    Ok ([set_Unknown (desc_hdr (Descriptor_Tag d) (zlen (DescriptorUnknown_Content v))) v],
+        mk_iter (bytes_of_items out ++ rest) (4 + zlen (DescriptorUnknown_Content v))).
+Proof. exact rt_unknown. Qed.
+Print Assumptions C14_rt_unknown.
+
+Theorem C14_rt_network_name : forall d v out rest,
+  Descriptor_Tag d = 64 -> Descriptor_NetworkName d = Some v -> 0 < zlen (DescriptorNetworkName_Name v) < 256 ->
+  enc_descriptors_with_length [d] = Ok out -> items_bytes_ok out ->
+  parse_descriptors (new_iter (bytes_of_items out ++ rest)) =
+    Ok ([set_NetworkName (desc_hdr 64 (zlen (DescriptorNetworkName_Name v))) v],
+        mk_iter (bytes_of_items out ++ rest) (4 + zlen (DescriptorNetworkName_Name v))).
+Proof. exact rt_network_name. Qed.
+Print Assumptions C14_rt_network_name.
+
+Theorem C14_rt_private_data_indicator : forall d v out rest,
+  Descriptor_Tag d = 15 -> Descriptor_PrivateDataIndicator d = Some v ->
+  0 <= DescriptorPrivateDataIndicator_Indicator v < 2 ^ 32 ->
+  enc_descriptors_with_length [d] = Ok out -> items_bytes_ok out ->
+  parse_descriptors (new_iter (bytes_of_items out ++ rest)) =
+    Ok ([set_PrivateDataIndicator (desc_hdr 15 4) v], mk_iter (bytes_of_items out ++ rest) 8).
+Proof. exact rt_private_data_indicator. Qed.
+Print Assumptions C14_rt_private_data_indicator.
+
+Theorem C14_rt_private_data_specifier : forall d v out rest,
+  Descriptor_Tag d = 95 -> Descriptor_PrivateDataSpecifier d = Some v ->
+  0 <= DescriptorPrivateDataSpecifier_Specifier v < 2 ^ 32 ->
+  enc_descriptors_with_length [d] = Ok out -> items_bytes_ok out ->
+  parse_descriptors (new_iter (bytes_of_items out ++ rest)) =
+    Ok ([set_PrivateDataSpecifier (desc_hdr 95 4) v], mk_iter (bytes_of_items out ++ rest) 8).
+Proof. exact rt_private_data_specifier. Qed.
+Print Assumptions C14_rt_private_data_specifier.
+
+(* Bitrate is a multiple of 50 below 50 * 2^22 *)
+Theorem C14_rt_maximum_bitrate : forall d v k out rest,
+  Descriptor_Tag d = 14 -> Descriptor_MaximumBitrate d = Some v ->
+  DescriptorMaximumBitrate_Bitrate v = k * 50 -> 0 <= k < 2 ^ 22 ->
+  enc_descriptors_with_length [d] = Ok out -> items_bytes_ok out ->
+  parse_descriptors (new_iter (bytes_of_items out ++ rest)) =
+    Ok ([set_MaximumBitrate (desc_hdr 14 3) v], mk_iter (bytes_of_items out ++ rest) 7).
+Proof. exact rt_maximum_bitrate. Qed.
+Print Assumptions C14_rt_maximum_bitrate.
+
+Theorem C14_rt_registration : forall d v out rest,
+  Descriptor_Tag d = 5 -> Descriptor_Registration d = Some v ->
+  0 <= DescriptorRegistration_FormatIdentifier v < 2 ^ 32 ->
+  zlen (DescriptorRegistration_AdditionalIdentificationInfo v) < 252 ->
+  enc_descriptors_with_length [d] = Ok out -> items_bytes_ok out ->
+  parse_descriptors (new_iter (bytes_of_items out ++ rest)) =
+    Ok ([set_Registration (desc_hdr 5 (4 + zlen (DescriptorRegistration_AdditionalIdentificationInfo v))) v],
+        mk_iter (bytes_of_items out ++ rest) (8 + zlen (DescriptorRegistration_AdditionalIdentificationInfo v))).
+Proof. exact rt_registration. Qed.
+Print Assumptions C14_rt_registration.
+
+(* language code of exactly 3 bytes *)
+Theorem C14_rt_iso639 : forall d v out rest,
+  Descriptor_Tag d = 10 -> Descriptor_ISO639LanguageAndAudioType d = Some v ->
+  length (DescriptorISO639LanguageAndAudioType_Language v) = 3%nat ->
+  byte_range (DescriptorISO639LanguageAndAudioType_Type v) ->
+  enc_descriptors_with_length [d] = Ok out -> items_bytes_ok out ->
+  parse_descriptors (new_iter (bytes_of_items out ++ rest)) =
+    Ok ([set_ISO639LanguageAndAudioType (desc_hdr 10 4) v], mk_iter (bytes_of_items out ++ rest) 8).
+Proof. exact rt_iso639. Qed.
+Print Assumptions C14_rt_iso639.
+
+Theorem C14_rt_service : forall d v out rest,
+  Descriptor_Tag d = 72 -> Descriptor_Service d = Some v -> byte_range (DescriptorService_Type v) ->
+  3 + zlen (DescriptorService_Provider v) + zlen (DescriptorService_Name v) < 256 ->
+  enc_descriptors_with_length [d] = Ok out -> items_bytes_ok out ->
+  parse_descriptors (new_iter (bytes_of_items out ++ rest)) =
+    Ok ([set_Service (desc_hdr 72 (3 + zlen (DescriptorService_Provider v) + zlen (DescriptorService_Name v))) v],
+        mk_iter (bytes_of_items out ++ rest) (4 + (3 + zlen (DescriptorService_Provider v) + zlen (DescriptorService_Name v)))).
+Proof. exact rt_service. Qed.
+Print Assumptions C14_rt_service.
+
+(* all three constraint flags, both picture flags, 5 compatible-flag bits *)
+Theorem C14_rt_avc_video : forall d v out rest,
+  Descriptor_Tag d = 40 -> Descriptor_AVCVideo d = Some v ->
+  byte_range (DescriptorAVCVideo_ProfileIDC v) -> byte_range (DescriptorAVCVideo_LevelIDC v) ->
+  0 <= DescriptorAVCVideo_CompatibleFlags v < 32 ->
+  enc_descriptors_with_length [d] = Ok out -> items_bytes_ok out ->
+  parse_descriptors (new_iter (bytes_of_items out ++ rest)) =
+    Ok ([set_AVCVideo (desc_hdr 40 4) v], mk_iter (bytes_of_items out ++ rest) 8).
+Proof. exact rt_avc_video. Qed.
+Print Assumptions C14_rt_avc_video.
+
+(* the hypotheses of the round trips are satisfiable: a stream identifier whose struct Length is wrong *)
+Example C14_rt_example :
+  let d := set_StreamIdentifier (desc_hdr 82 77) {| DescriptorStreamIdentifier_ComponentTag := 200 |} in
+  exists out, enc_descriptors_with_length [d] = Ok out /\ items_bytes_ok out /\
+              bytes_of_items out = [240; 3; 82; 1; 200].
+Proof. eexists. split; [vm_compute; reflexivity|]. split; [repeat constructor|reflexivity]. Qed.
+
+(* (d) writing yields the reference encoding.  writeDescriptor emits tag, size, body (any tag, any value whose body
+   is 1..255 bytes); the bodies of the byte-aligned tags are the layouts of Spec/DescSpec.v (EN 300 468 6.2,
+   ISO/IEC 13818-1 2.6).  The remaining tags (bit-packed: AC-3, Enhanced AC-3, AVC, component, extended event,
+   extension, local time offset, maximum bitrate, teletext, VBI) are compared with the independent Go reference
+   encoder by the implementation-side oracle on every run. *)
+Theorem C14_write_descriptor : forall d bi, enc_descriptor_body d = Ok bi -> items_bytes_ok bi ->
+  0 <= Descriptor_Tag d < 256 -> 0 < desc_size d < 256 ->
+  res_map bytes_of_items (enc_descriptor d) = Ok ([Descriptor_Tag d; desc_size d] ++ bytes_of_items bi).
+Proof. exact write_descriptor_bytes. Qed.
+Print Assumptions C14_write_descriptor.
+
+Theorem C14_write_bodies :
+  (forall v, byte_range (DescriptorStreamIdentifier_ComponentTag v) -> bytes_of_items (enc_stream_identifier v) = ref_stream_identifier v) /\
+  (forall v, byte_range (DescriptorDataStreamAlignment_Type v) -> bytes_of_items (enc_data_stream_alignment v) = ref_data_stream_alignment v) /\
+  (forall v, bytes_ok (DescriptorRegistration_AdditionalIdentificationInfo v) -> bytes_of_items (enc_registration v) = ref_registration v) /\
+  (forall v, bytes_of_items (enc_private_data_indicator v) = ref_private_data_indicator v) /\
+  (forall v, bytes_of_items (enc_private_data_specifier v) = ref_private_data_specifier v) /\
+  (forall v, length (DescriptorISO639LanguageAndAudioType_Language v) = 3%nat -> bytes_ok (DescriptorISO639LanguageAndAudioType_Language v) ->
+             byte_range (DescriptorISO639LanguageAndAudioType_Type v) -> bytes_of_items (enc_iso639 v) = ref_iso639 v) /\
+  (forall v, bytes_ok (DescriptorNetworkName_Name v) -> bytes_of_items (enc_network_name v) = ref_network_name v) /\
+  (forall v, bytes_ok (DescriptorUnknown_Content v) -> bytes_of_items (enc_unknown v) = ref_unknown v) /\
+  (forall v, byte_range (DescriptorService_Type v) -> bytes_ok (DescriptorService_Provider v) -> bytes_ok (DescriptorService_Name v) ->
+             zlen (DescriptorService_Provider v) < 256 -> zlen (DescriptorService_Name v) < 256 -> bytes_of_items (enc_service v) = ref_service v) /\
+  (forall v, length (DescriptorShortEvent_Language v) = 3%nat -> bytes_ok (DescriptorShortEvent_Language v) ->
+             bytes_ok (DescriptorShortEvent_EventName v) -> bytes_ok (DescriptorShortEvent_Text v) ->
+             zlen (DescriptorShortEvent_EventName v) < 256 -> zlen (DescriptorShortEvent_Text v) < 256 ->
+             bytes_of_items (enc_short_event v) = ref_short_event v) /\
+  (forall v, Forall (fun it => length (DescriptorParentalRatingItem_CountryCode it) = 3%nat /\ bytes_ok (DescriptorParentalRatingItem_CountryCode it) /\
+                               byte_range (DescriptorParentalRatingItem_Rating it)) (DescriptorParentalRating_Items v) ->
+             bytes_of_items (enc_parental_rating v) = ref_parental_rating v) /\
+  (forall v, Forall (fun it => length (DescriptorSubtitlingItem_Language it) = 3%nat /\ bytes_ok (DescriptorSubtitlingItem_Language it) /\
+                               byte_range (DescriptorSubtitlingItem_Type it)) (DescriptorSubtitling_Items v) ->
+             bytes_of_items (enc_subtitling v) = ref_subtitling v) /\
+  (forall v, Forall (fun it => 0 <= DescriptorContentItem_ContentNibbleLevel1 it < 16 /\ 0 <= DescriptorContentItem_ContentNibbleLevel2 it < 16 /\
+                               byte_range (DescriptorContentItem_UserByte it)) (DescriptorContent_Items v) ->
+             bytes_of_items (enc_content v) = ref_content v).
+Proof.
+  repeat split.
+  - exact write_stream_identifier. - exact write_data_stream_alignment. - exact write_registration.
+  - exact write_private_data_indicator. - exact write_private_data_specifier. - exact write_iso639.
+  - exact write_network_name. - exact write_unknown. - exact write_service. - exact write_short_event.
+  - exact write_parental_rating. - exact write_subtitling. - exact write_content.
+Qed.
+Print Assumptions C14_write_bodies.
+
+(* (e) loops of 0..n descriptors of mixed tags.  entry_rt d d': the tag is a byte, the body fits 255 bytes, and
+   either the body is empty and d' is the bare header (S7: an empty list or name comes back as "no body") or the
+   body-level round trip body_rt of d's tag holds.  Parsing what writeDescriptorsWithLength emits for the whole loop
+   yields the entry-wise results, and the iterator stops exactly 2 + loop_size bytes on, whatever follows. *)
+Theorem C14_loop_roundtrip : forall ds ds' out rest,
+  enc_descriptors_with_length ds = Ok out -> items_bytes_ok out -> loop_size ds < 4096 ->
+  Forall2 entry_rt ds ds' ->
+  parse_descriptors (new_iter (bytes_of_items out ++ rest)) = Ok (ds', mk_iter (bytes_of_items out ++ rest) (2 + loop_size ds)).
+Proof. exact loop_roundtrip. Qed.
+Print Assumptions C14_loop_roundtrip.
+
+(* the tags for which body_rt is proved, with their domains (any Descriptor_Length, any foreign bodies in d) *)
+Theorem C14_body_roundtrips :
+  (forall d v, Descriptor_Tag d = 82 -> Descriptor_StreamIdentifier d = Some v -> byte_range (DescriptorStreamIdentifier_ComponentTag v) ->
+     body_rt d (set_StreamIdentifier (desc_hdr 82 1) v)) /\
+  (forall d v, Descriptor_Tag d = 6 -> Descriptor_DataStreamAlignment d = Some v -> byte_range (DescriptorDataStreamAlignment_Type v) ->
+     body_rt d (set_DataStreamAlignment (desc_hdr 6 1) v)) /\
+  (forall d, 128 <= Descriptor_Tag d <= 254 -> 0 < zlen (Descriptor_UserDefined d) < 256 ->
+     body_rt d (set_UserDefined (desc_hdr (Descriptor_Tag d) (zlen (Descriptor_UserDefined d))) (Descriptor_UserDefined d))) /\
+  (forall d v, Descriptor_Tag d = 64 -> Descriptor_NetworkName d = Some v -> 0 < zlen (DescriptorNetworkName_Name v) < 256 ->
+     body_rt d (set_NetworkName (desc_hdr 64 (zlen (DescriptorNetworkName_Name v))) v)) /\
+  (forall d v, 0 <= Descriptor_Tag d < 256 -> is_user_defined (Descriptor_Tag d) = false -> ~ In (Descriptor_Tag d) typed_tags ->
+     Descriptor_Unknown d = Some v -> DescriptorUnknown_Tag v = Descriptor_Tag d -> 0 < zlen (DescriptorUnknown_Content v) < 256 ->
+     body_rt d (set_Unknown (desc_hdr (Descriptor_Tag d) (zlen (DescriptorUnknown_Content v))) v)) /\
+  (forall d v, Descriptor_Tag d = 15 -> Descriptor_PrivateDataIndicator d = Some v -> 0 <= DescriptorPrivateDataIndicator_Indicator v < 2 ^ 32 ->
+     body_rt d (set_PrivateDataIndicator (desc_hdr 15 4) v)) /\
+  (forall d v, Descriptor_Tag d = 95 -> Descriptor_PrivateDataSpecifier d = Some v -> 0 <= DescriptorPrivateDataSpecifier_Specifier v < 2 ^ 32 ->
+     body_rt d (set_PrivateDataSpecifier (desc_hdr 95 4) v)) /\
+  (forall d v k, Descriptor_Tag d = 14 -> Descriptor_MaximumBitrate d = Some v -> DescriptorMaximumBitrate_Bitrate v = k * 50 -> 0 <= k < 2 ^ 22 ->
+     body_rt d (set_MaximumBitrate (desc_hdr 14 3) v)) /\
+  (forall d v, Descriptor_Tag d = 5 -> Descriptor_Registration d = Some v -> 0 <= DescriptorRegistration_FormatIdentifier v < 2 ^ 32 ->
+     zlen (DescriptorRegistration_AdditionalIdentificationInfo v) < 252 ->
+     body_rt d (set_Registration (desc_hdr 5 (4 + zlen (DescriptorRegistration_AdditionalIdentificationInfo v))) v)) /\
+  (forall d v, Descriptor_Tag d = 10 -> Descriptor_ISO639LanguageAndAudioType d = Some v ->
+     length (DescriptorISO639LanguageAndAudioType_Language v) = 3%nat -> byte_range (DescriptorISO639LanguageAndAudioType_Type v) ->
+     body_rt d (set_ISO639LanguageAndAudioType (desc_hdr 10 4) v)) /\
+  (forall d v, Descriptor_Tag d = 72 -> Descriptor_Service d = Some v -> byte_range (DescriptorService_Type v) ->
+     3 + zlen (DescriptorService_Provider v) + zlen (DescriptorService_Name v) < 256 ->
+     body_rt d (set_Service (desc_hdr 72 (3 + zlen (DescriptorService_Provider v) + zlen (DescriptorService_Name v))) v)) /\
+  (forall d v, Descriptor_Tag d = 40 -> Descriptor_AVCVideo d = Some v -> byte_range (DescriptorAVCVideo_ProfileIDC v) ->
+     byte_range (DescriptorAVCVideo_LevelIDC v) -> 0 <= DescriptorAVCVideo_CompatibleFlags v < 32 ->
+     body_rt d (set_AVCVideo (desc_hdr 40 4) v)).
+Proof.
+  repeat split.
+  - exact brt_stream_identifier. - exact brt_data_stream_alignment. - exact brt_user_defined. - exact brt_network_name.
+  - exact brt_unknown. - exact brt_private_data_indicator. - exact brt_private_data_specifier. - exact brt_maximum_bitrate.
+  - exact brt_registration. - exact brt_iso639. - exact brt_service. - exact brt_avc_video.
+Qed.
+Print Assumptions C14_body_roundtrips.
+
+(* a mixed loop inside the hypotheses: stream identifier (struct Length wrong), an empty content descriptor
+   (zero items: comes back as the bare header), a user-defined descriptor; 0xAB follows the loop *)
+Definition ex_mixed : list Descriptor :=
+  [ set_StreamIdentifier (desc_hdr 82 99) {| DescriptorStreamIdentifier_ComponentTag := 7 |};
+    set_Content (desc_hdr 84 3) {| DescriptorContent_Items := [] |};
+    set_UserDefined (desc_hdr 200 0) [1; 2; 3] ].
+Definition ex_mixed_parsed : list Descriptor :=
+  [ set_StreamIdentifier (desc_hdr 82 1) {| DescriptorStreamIdentifier_ComponentTag := 7 |};
+    desc_hdr 84 0;
+    set_UserDefined (desc_hdr 200 3) [1; 2; 3] ].
+Example C14_loop_example : Forall2 entry_rt ex_mixed ex_mixed_parsed /\
+  exists out, enc_descriptors_with_length ex_mixed = Ok out /\
+    bytes_of_items out = [240; 10; 82; 1; 7; 84; 0; 200; 3; 1; 2; 3] /\
+    parse_descriptors (new_iter (bytes_of_items out ++ [171])) = Ok (ex_mixed_parsed, mk_iter (bytes_of_items out ++ [171]) 12).
+Proof.
+  split.
+  - apply Forall2_cons; [|apply Forall2_cons; [|apply Forall2_cons; [|apply Forall2_nil]]].
+    + split; [cbv; intuition discriminate|]. split; [reflexivity|]. right. split; [reflexivity|].
+      apply brt_stream_identifier; [reflexivity|reflexivity|cbv; intuition discriminate].
+    + split; [cbv; intuition discriminate|]. split; [reflexivity|]. left. split; reflexivity.
+    + split; [cbv; intuition discriminate|]. split; [reflexivity|]. right. split; [reflexivity|].
+      apply (brt_user_defined (set_UserDefined (desc_hdr 200 0) [1; 2; 3])); cbv; intuition discriminate.
+  - eexists. split; [vm_compute; reflexivity|]. split; vm_compute; reflexivity.
+Qed.
